@@ -24,6 +24,11 @@ var lightScenario = map[string]bool{"S1-sm2-key": true, "S2-sm2-key-d=n-1": true
 var tierDependent = map[string]bool{"S17-zuc-independent-objects": true, "S18-sm4-modes-independent-objects": true, "S19-hash-mac-drbg-padding-independent-objects": true, "S8-sm4-shared-block-aead": true, "S12-sm4-shared-block-modes": true, "S9-sm3-constructors": true, "S11-sm9-encrypt-user-key": true}
 
 func (Prop) SelfTest() error { return nil }
+
+// IsolateCases: every case runs in a worker process of its own. The race detector reports a pair of code locations once
+// per process, and the first execution of a case must find the process cold (no package-level singleton initialised
+// by an earlier case), see runScenario.
+func (Prop) IsolateCases() bool { return true }
 func (Prop) Rule() string {
 	return "E5: stateless DFS over thread schedules of 2-3 goroutines on a freshly created shared object, real library code, one thread running at a time under a " +
 		"cooperative scheduler whose hand-offs are invisible to the Go race detector (so every explored schedule, including the serial ones, is checked by TSan for " +
